@@ -249,7 +249,7 @@ val unsigned_desc : bool -> bool -> bool -> bool
 
 val fwd_safe : z -> bool -> z -> z -> z -> bool
 
-val rev_safe : z -> bool -> z -> z -> z -> z -> bool
+val rev_safe : z -> bool -> z -> z -> z -> bool
 
 val enum_body :
   z -> bool -> bool -> ((z * z) -> 'a1 -> ctl * 'a1) -> z -> (z * 'a1) ->
